@@ -4,6 +4,7 @@ use crate::json::Json;
 use crate::progs::*;
 use crate::rng::Rng;
 use crate::simutil::*;
+use lc3_ensemble::asm::encoding::ObjFileFormat;
 use lc3_ensemble::sim::device::{BufferedDisplay, BufferedKeyboard};
 use lc3_ensemble::sim::mem::{MachineInitStrategy, Word};
 use lc3_ensemble::sim::{InternalRegister, MemAccessCtx, SimFlags, Simulator};
@@ -88,6 +89,7 @@ fn run(ctx: &mut Ctx) {
         let kbd: Vec<u8> = (0..1 + rng.usize(4)).map(|_| 1 + rng.below(255) as u8).collect();
         let fill = rng.u16();
         let (mut a, mut b) = (mk(true, real, ign, fill, &kbd), mk(false, real, ign, fill, &kbd));
+        let mut reload: Option<(usize, lc3_ensemble::asm::ObjectFile)> = None;
         let mut desc = Json::obj().set("family", ["program", "random-state", "fully-initialized-state"][family as usize]).set("real_traps", real).set("ignore_privilege", ign).set("kbd", format!("{kbd:?}")).set("fill", fill);
         if family == 0 {
             let opts = ProgOpts { faults: rng.chance(1, 3), unbalanced: rng.chance(1, 4), ..ProgOpts::default() };
@@ -98,7 +100,31 @@ fn run(ctx: &mut Ctx) {
             desc.put("program", prog.text.as_str());
             for k in 0..prog.kbd_needed { let _ = k; a.kb.get_buffer().write().unwrap().push_back(0x41); b.kb.get_buffer().write().unwrap().push_back(0x41); }
         } else {
+            // a third of the random-state episodes have an object-file history: a multi-block file is loaded first (sometimes read from
+            // the text format, with a block that reaches xFFFF - the assembler refuses those, the loader does not), and later in the
+            // episode a second, single-block file replaces it in the same simulator
+            if rng.chance(1, 3) {
+                let o1 = *rng.pick(&[0x3000u16, 0x3100, 0x4000]);
+                let mut text = format!(".orig x{o1:04X}\n.blkw 3\n.fill 7\n.end\n.orig x5000\n.fill 1\n.fill 2\n.end\n.orig x6000\n.fill x6000\n.blkw 2\n.fill 9\n.end\n");
+                if rng.bool() { text.push_str(".orig xA000\n.stringz \"ab\"\n.end\n"); }
+                let first = if rng.chance(1, 3) {
+                    let top = 0xFFFF - rng.below(6) as u16; let n = 0x10000 - top as u32;
+                    let mut t = format!("LC-3 OBJ FILE\n\n.TEXT\n3000\n2\n1021\n0FFE\n5000\n1\n0001\n{top:04X}\n{n}\n");
+                    for k in 0..n { t.push_str(&format!("{:04X}\n", 0x1000 + k)); }
+                    lc3_ensemble::asm::encoding::TextFormat::deserialize(&t)
+                } else { lc3_ensemble::parse::parse_ast(&text).ok().and_then(|ast| lc3_ensemble::asm::assemble(ast).ok()) };
+                let second = lc3_ensemble::parse::parse_ast(".orig x3000\n.fill x1021\n.blkw 2\n.end\n").ok().and_then(|ast| lc3_ensemble::asm::assemble(ast).ok());
+                if let (Some(f), Some(g)) = (first, second) {
+                    let ok = crate::monitor::guard(|| a.sim.load_obj_file(&f).is_ok() && b.sim.load_obj_file(&f).is_ok());
+                    if matches!(ok, Ok(true)) { reload = Some((8 + rng.usize(24), g)); ctx.count("episodes.with-object-history"); desc.put("object_history", "multi-block file loaded first; single-block file loaded mid-episode"); }
+                }
+            }
             apply(rng, &mut [&mut a, &mut b], family == 2);
+            if reload.is_some() {
+                // directed: the code starts with loads/stores through R1 into the later blocks of the first file / the top of memory
+                let tgt = *rng.pick(&[0x5000u16, 0x5001, 0x6000, 0x6003, 0xA000, 0xFFFF, 0xFFFD]);
+                for m in [&mut a, &mut b] { let pc = m.sim.pc; m.sim.reg_file[reg(1)].set(tgt); m.sim.mem[pc] = Word::new_init(0x6040); m.sim.mem[pc.wrapping_add(1)] = Word::new_init(0x7040); if family == 2 { m.sim.mem[tgt] = Word::new_init(m.sim.mem[tgt].get()); } }
+            }
             desc.put("pc", format!("x{:04X}", a.sim.pc)); desc.put("psr", format!("x{:04X}", a.sim.psr().get()));
             desc.put("regs", format!("{:?}", (0..8).map(|i| a.sim.reg_file[reg(i)]).collect::<Vec<_>>()));
             desc.put("code", format!("{:04X?}", (0..12).map(|k| a.sim.mem[a.sim.pc.wrapping_add(k)].get()).collect::<Vec<_>>()));
@@ -107,6 +133,13 @@ fn run(ctx: &mut Ctx) {
         let max = if family == 0 { 4000 } else { 48 };
         let mut strict_only = 0; let mut uninit_seen = false;
         for s in 0..max {
+            if let Some((at, g)) = &reload { if s == *at {
+                let ok = crate::monitor::guard(|| a.sim.load_obj_file(g).is_ok() && b.sim.load_obj_file(g).is_ok());
+                if !matches!(ok, Ok(true)) { break; }
+                // keep the machines comparable and make the next instruction a load through R1 again
+                for m in [&mut a, &mut b] { let pc = m.sim.pc; if pc < 0xFE00 { m.sim.mem[pc] = Word::new_init(0x6040); } if family == 2 { for x in 0x3000..0x3004u16 { let v = m.sim.mem[x].get(); m.sim.mem[x] = Word::new_init(v); } } }
+                ctx.count("episodes.second-file-loaded");
+            } }
             let pc0 = a.sim.pc;
             let w0 = a.sim.mem[pc0];
             let cls = match crate::refasm::decode_ref(w0.get()) { Ok(i) => crate::refasm::ri_name(&i), Err(_) => "invalid" };
@@ -153,6 +186,6 @@ fn guard(m: &Merged, _t: Tier) -> Vec<String> {
     let mut out = vec![];
     for f in 0..3 { need(m, &mut out, &format!("episodes.family-{f}"), 300); }
     for k in ["StrictRegSetUninit", "StrictMemSetUninit", "StrictJmpAddrUninit", "StrictSRAddrUninit", "StrictMemAddrUninit", "StrictPCCurrUninit", "StrictPCNextUninit"] { need(m, &mut out, &format!("strict-only.{k}"), 1); }
-    for k in ["steps.in-os-memory", "steps.in-io-page", "common-error.AccessViolation"] { need(m, &mut out, k, 5); }
+    for k in ["steps.in-os-memory", "steps.in-io-page", "common-error.AccessViolation", "episodes.with-object-history", "episodes.second-file-loaded"] { need(m, &mut out, k, 5); }
     out
 }
